@@ -3,6 +3,7 @@ import backoff
 import topicname
 import layouts
 import compfacts
+import keepalive
 
 GENERATORS = [
     ('Backoff.v', backoff.generate),
@@ -10,6 +11,7 @@ GENERATORS = [
     ('Layouts.v', layouts.generate_defs),
     ('LayoutsOk.v', layouts.generate_ok),
     ('CompFacts.v', compfacts.generate),
+    ('KeepAliveFacts.v', keepalive.generate),
 ]
 
 if __name__ == '__main__':
